@@ -391,7 +391,7 @@ ASSUMPTIONS = [
     "tree.zeros rebound to an object-dtype allocator inside the worker so symbolic lengths survive numpy",
     "trees are built by make_tree from a newick string (parser trusted for these fixed strings); tip and node names are fixed letters",
 ]
-OUTSIDE = ["newick / JSON float formatting; names longer than 3 characters", "the VALUE of the matching distances (Lin-Rajan-Moret, matching cluster) beyond zero-iff-equal and symmetry; multifurcating trees in the distance metrics", "trees with > 6 tips", "None / zero branch lengths"]
+OUTSIDE = ["newick / JSON float formatting; names longer than 3 characters", "the VALUE of the Lin-Rajan-Moret distance beyond zero-iff-equal and symmetry; matching cluster on > 5 tips; multifurcating trees in the Robinson-Foulds / unrooted metrics", "trees with > 6 tips", "None / zero branch lengths"]
 TRUSTED = ["the parent-pointer path-length walker and split-set extractor in props/c09.py"]
 
 # ---------------------------------------------------------------- names through the text routes
@@ -479,6 +479,10 @@ def obligations(tier):
                 obs.append(Ob(f"names_excl_known/{route}/{which}/len3/punct", __name__, "mk_names", {"route": route, "which": which, "maxlen": 3, "alpha": "punct", "exclude_known": True}, timeout=3600, group="names"))
     for rooted, n in ((True, 4), (False, 5)) + (((True, 5), (False, 6)) if T else ()):
         obs.append(Ob(f"tree_distance/{'rooted' if rooted else 'unrooted'}/tips{n}", "props.c09_dist", "mk_distance", {"rooted": rooted, "ntips": n}, timeout=3600, group="distance", grade="realised-input"))
+    obs.append(Ob("matching_cluster_value/tips4", "props.c09_dist", "mk_matching_cluster", {"ntips": 4}, timeout=1800, group="distance", grade="realised-input"))
+    NSH = 8  # 236 rooted trees on 5 tips: ~30 first trees per shard, each against all 236
+    for sh in range(NSH):
+        obs.append(Ob(f"matching_cluster_value/tips5/shard{sh}of{NSH}", "props.c09_dist", "mk_matching_cluster", {"ntips": 5, "shard": sh, "nshards": NSH}, timeout=3600, group="distance", grade="realised-input"))
     for s in EXTRA:
         for op in ("prune", "sub", "rooted_with_tip", "distances", "unrooted_deepcopy"):
             obs.append(Ob(f"{op}/{s['id']}", __name__, "mk", {"shape_id": s["id"], "op": op}, timeout=600, group=op))
@@ -486,7 +490,7 @@ def obligations(tier):
 
 
 def classify(name, args, cex, rep):
-    if name.startswith("tree_distance"):
+    if name.startswith("tree_distance") or name.startswith("matching_cluster"):
         return None
     if name.startswith("names"):
         nm = cex.get("name", "")
